@@ -1,17 +1,12 @@
 """C16 - map arrays behave as insertion-ordered finite maps under every history."""
 from common import *
 
+# classes of the four defects repaired by d33ad92 / 1d73a86 / ca07ac6 / 5017b06: the keys stay stable should one come back
 KNOWN_CLASSES = {
-    "map-key-nan": "a NaN key compares equal to the empty/tombstone placeholder cells: get/has find it in a map that does not hold it, insert/remove corrupt the table",
-    "map-drop-all": "dropping every row of a map (drop n with n >= length) empties the values but keeps all keys",
-    "map-join-overlap": "joining two maps that share two or more keys leaves two keys pointing at the same row",
-    "map-dup-keys": "map built from a key list with repeated keys in non-nested order leaves two keys pointing at the same row",
-}
-THEOREM_OF = {
-    "map-key-nan": "C16_nan_key_refuted",
-    "map-drop-all": "C16_drop_all_refuted",
-    "map-join-overlap": "C16_join_overlap_refuted",
-    "map-dup-keys": "C16_map_dup_keys_refuted",
+    "map-key-nan": "a NaN key behaves differently from an ordinary key (it used to compare equal to the empty/tombstone placeholder cells)",
+    "map-drop-all": "dropping every row of a map (drop n with n >= length) leaves keys behind",
+    "map-join-overlap": "joining two maps that share two or more keys leaves keys and rows misaligned",
+    "map-dup-keys": "a map built from a key list with repeated keys has keys and rows misaligned",
 }
 
 
@@ -20,9 +15,9 @@ def tie_text(ch):
              "From UV Require Import Model.Map.", "Import NInst.", "Open Scope nat_scope."]
     names = []
     for c in ch:
-        nan = "(fun k => N.eqb k %d%%N)" % c["nan"] if c["nan"] is not None else "(fun _ => false)"
+        keq = "keq_negzero" if c["class"] == "negzero" else "N.eqb"
         lines.append("Definition h%d : option nat := replay %s %s %s%%N %s%%N (empty_map N N) %s 0." %
-                     (c["id"], nan, c["tbl"], c["he"], c["ht"], c["obs"]))
+                     (c["id"], keq, c["tbl"], c["he"], c["ht"], c["obs"]))
         names.append("h%d" % c["id"])
     # result: list of (history id, failing step) for the histories that disagree
     lines.append("Eval vm_compute in (flat_map (fun p => match snd p with Some s => [(fst p, s)] | None => [] end) [%s])." %
@@ -39,8 +34,8 @@ def run(r):
         "harness association list (Vec<(Value, Value)> with Value ==) as executable specification of the search",
     ]
     r.assumptions += [
-        "refinement theorem: keys are compared by an equivalence keq that the hash respects (C15) and no key compares equal to the empty/tombstone placeholder cells (nanlike k = false: excludes NaN keys, shown necessary by C16_nan_key_refuted)",
-        "refinement theorem covers histories of insert/remove/get/has/length with growth, un-map through the abstraction (key bound to row i, not the sort in normalized()); reverse/rotate/take/drop/join/map-construction are covered by the tie and the search only (three of them have the defects listed as findings)",
+        "refinement theorem: keys are compared by an equivalence keq that the hash respects (C15; NaN, -0 and byte/float keys are ordinary keys); outside the statement: keys with an element bit-identical to a placeholder value (f64 0x7ff8000000000001/2, chars U+2FFFF/U+2FFFE, also nested in boxes), which the code cannot tell from an empty/tombstone cell",
+        "refinement theorem covers histories of insert/remove/get/has/length with growth, un-map through the abstraction (key bound to row i, not the sort in normalized()); reverse/rotate/take/drop/join/map-construction are covered by the tie and the search only ",
     ]
     if not r.harness(["c16"]):
         return
@@ -81,6 +76,10 @@ def run(r):
                          "compared": "cells, indices, len, rows and the output after every step"}
     for c in cases[:3]:
         r.sample({"tie_history": c["history"], "class": c["class"], "steps": c["steps"], "max_capacity": c["max_capacity"]})
+    r.coverage["tie"]["corpus_histories"] = sum(1 for c in cases if c.get("corpus"))
+    for c in [c for c in cases if c.get("corrupt")][:3]:
+        r.violation("tie-corrupt:%s:%s" % (c["class"], c["history"]), "the last step of this history leaves a map that check_value rejects",
+                    {"class": c["class"], "history": c["history"], "cmd": "c16 one %s \"%s\"" % (c["class"], c["history"])}, theorem="C16_map_inv_run")
     r.log("tie: %d histories, %d steps, %d mismatches" % (len(cases), steps, len(mism)))
     if mism:
         c, s = mism[0]
@@ -123,12 +122,12 @@ def run(r):
                     {"class": v["class"], "history": v["history"], "program": v["program"], "detail": v["detail"],
                      "occurrences": sum(x["count"] for x in viols if x["violation"] == key),
                      "cmd": "c16 one %s \"%s\"" % (v["class"], v["history"])},
-                    theorem=THEOREM_OF.get(key, "C16_map_refines_alist"))
+                    theorem="C16_map_refines_alist")
     r.coverage["evaluations"] = steps + evals
     r.coverage["distinct_nontrivial"] = sum(l.get("histories", 0) for l in phases) + len(cases)
-    r.coverage["rule"] = ("tie: random histories over {insert, remove, get, has, length, un-map, reverse, rotate, take, drop, join} on universes of 4/12/40 "
-                          "integer, character and NaN-containing key sets, run through the interpreter; search: every history of mutators "
-                          "(8 inserts, 4 removes, reverse, rotate 1, take 0/1/2, drop 1/2, 2 joins) up to the given depth from the empty map with every observer "
+    r.coverage["rule"] = ("tie: the regression corpus, then random histories over {insert, remove, get, has, length, un-map, reverse, rotate, take, drop, join with "
+                          "repeated and shared keys} on universes of 4/12/40 integer, character, NaN-containing and -0-containing key sets, run through the interpreter; "
+                          "search: the regression corpus first, then every history of mutators (8 inserts, 4 removes, reverse, rotate 1, take 0/1/2, drop 1/2, 3 joins) up to the given depth from the empty map with every observer "
                           "(get/has of each key, length, un-map, check_value) at every node, for number, character, NaN, -0, string and boxed keys; "
                           "all key lists up to length 4 for map construction; random histories to length 200 over 6/24/60 keys; "
                           "non-trivial = distinct histories")
